@@ -11,7 +11,7 @@ for patch in "$@"; do
   if ! git -C "$wt" apply "$patch" 2>/dev/null; then echo "REF $patch: does-not-apply"; git -C /repo worktree remove --force "$wt"; rm -rf "$wt"; continue; fi
   if ! (cd "$wt" && go build ./... && cd sqlite && go build ./... && cd ../fsim && go build ./...) >/dev/null 2>&1; then echo "REF $patch: does-not-build"; git -C /repo worktree remove --force "$wt"; rm -rf "$wt"; continue; fi
   out=$(mktemp -d /tmp/refmxout.XXXXXX)
-  /verif/bin/fdocheck -list | tr ' ' '\n' | xargs -P 10 -I{} sh -c "/verif/bin/fdocheck -no-write -repo $wt {} > $out/{}.txt 2>&1; echo \$? > $out/{}.rc"
+  ${FDOCHECK:-/verif/bin/fdocheck} -list | tr ' ' '\n' | xargs -P ${PAR:-10} -I{} sh -c "${FDOCHECK:-/verif/bin/fdocheck} -no-write -repo $wt {} > $out/{}.txt 2>&1; echo \$? > $out/{}.rc"
   bad=""
   for f in $out/*.rc; do id=$(basename $f .rc); rc=$(cat $f); [ "$rc" != "0" ] && bad="$bad $id(rc=$rc)"; done
   if [ -z "$bad" ]; then echo "REF $patch: all 20 checks pass"; else
